@@ -16,7 +16,7 @@ var (
 		"a.-b.example.com", "1.0.0.127.in-addr.arpa", "example.arpa", "xn--80ak6aa92e.com", "*", ".", "com", "a.b-.com", "_.example.com", "x--y.example.com", "example.co.uk", "www.example.co.uk", "bad_tld._x"}
 	EmailDict = []string{"a@b.com", "user@example.com", "bad", "a@b@c", "", "A <a@b.com>", "a@localhost", "a@[1.2.3.4]", " a@b.com", "a@b.com ", "\xc3\xa9@b.com", "a@a_b.com"}
 	URIDict   = []string{"http://example.com/", "https://example.com/x?y", "urn:x:y", "http://[::1]/", "http://[2001:db8::1]:80/x", "ldap://ldap.example.com/cn=x", "//x", "", "http://", "mailto:a@b.com",
-		"http://localhost/", "http://10.0.0.1/", "http://example/", "http://a b/", "example.com", "http://example.com:8080/", "http://user@example.com/", "HTTP://EXAMPLE.COM/", "http://a_b.com/", "ftp://ftp.example.com/f", ":", "http://%zz/"}
+		"http://localhost/", "http://10.0.0.1/", "http://example/", "http://a b/", "example.com", "http://example.com:8080/", "http://user@example.com/", "http://localhost:80/", "https://intranet:8443/ca.crt", "http://example.com:/", "http://[::1]:443/", "http://1.2.3.4:80/", "http://a_b:1/x", "http://user:pw@host:99/", "HTTP://EXAMPLE.COM/", "http://a_b.com/", "ftp://ftp.example.com/f", ":", "http://%zz/"}
 	IPDict = [][]byte{{8, 8, 8, 8}, {10, 0, 0, 1}, {127, 0, 0, 1}, {192, 168, 1, 1}, {1, 2, 3, 4}, {0, 0, 0, 0}, {255, 255, 255, 255},
 		{0x20, 0x01, 0x48, 0x60, 0x48, 0x60, 0, 0, 0, 0, 0, 0, 0, 0, 0x88, 0x88}, {0, 0, 0, 0, 0, 0, 0, 0, 0, 0, 0, 0, 0, 0, 0, 1}, {1, 2, 3}, {1, 2, 3, 4, 5}, {},
 		{0, 0, 0, 0, 0, 0, 0, 0, 0, 0, 0xff, 0xff, 10, 0, 0, 1}, {0xfe, 0x80, 0, 0, 0, 0, 0, 0, 0, 0, 0, 0, 0, 0, 0, 1}}
@@ -32,7 +32,7 @@ func DrawGN(t *rapid.T) (*dt.Node, string) {
 		s := EmailDict[rapid.IntRange(0, len(EmailDict)-1).Draw(t, "email")]
 		return GNEmail([]byte(s)), "email:" + s
 	case 11, 12, 13:
-		s := URIDict[rapid.IntRange(0, len(URIDict)-1).Draw(t, "uri")]
+		s, _ := DrawURI(t)
 		return GNURI([]byte(s)), "uri:" + s
 	case 14, 15:
 		b := IPDict[rapid.IntRange(0, len(IPDict)-1).Draw(t, "ip")]
@@ -84,4 +84,20 @@ func DrawPerm(t *rapid.T, n int) []int {
 		}
 	}
 	return p
+}
+
+// DrawURI draws a URI: half from the dictionary, half from a small grammar
+// scheme "://" [userinfo "@"] host [":" port] path, with hosts of every kind.
+func DrawURI(t *rapid.T) (string, string) {
+	if rapid.Bool().Draw(t, "uridict") {
+		s := URIDict[rapid.IntRange(0, len(URIDict)-1).Draw(t, "uri")]
+		return s, "dict"
+	}
+	scheme := rapid.SampledFrom([]string{"http", "https", "ldap", "ftp", "HTTP", "x-y.z"}).Draw(t, "scheme")
+	user := rapid.SampledFrom([]string{"", "", "", "user@", "u:p@", "@"}).Draw(t, "userinfo")
+	host := rapid.SampledFrom([]string{"example.com", "www.example.co.uk", "localhost", "intranet", "a_b.example.com", "1.2.3.4", "10.0.0.1", "[::1]", "[2001:db8::1]",
+		"", "*.example.com", "*", "example.com.", "EXAMPLE.COM", "xn--bcher-kva.example", "-a.com", "exa mple.com", "host.invalidtld", "a..b", "999.1.1.1"}).Draw(t, "host")
+	port := rapid.SampledFrom([]string{"", "", "", ":80", ":8443", ":", ":0", ":99999", ":x"}).Draw(t, "port")
+	path := rapid.SampledFrom([]string{"", "/", "/ca.crt", "/a?b=c#d", "?q", "#f"}).Draw(t, "path")
+	return scheme + "://" + user + host + port + path, "grammar"
 }
